@@ -13,8 +13,9 @@ Section P.
   Variable disk : uri -> option text.
   Notation view := (view disk).
   Notation target := (target disk).
-  Notation step := (step disk).
+  Notation step := (step disk true).
   Notation sect2 := (sect2 disk).
+  Notation sect1 := (sect1 true).
 
   Definition midu (s : st) (u : uri) : Prop := exists n, mid s = Some n /\ notif_uri n = u.
 
@@ -193,7 +194,7 @@ Section P.
           right. right. split; [assumption | right; assumption].
   Qed.
 
-  Lemma inv_reach : forall s0 s, start disk s0 -> reach disk s0 s -> inv s.
+  Lemma inv_reach : forall s0 s, start disk s0 -> reach disk true s0 s -> inv s.
   Proof.
     intros s0 s H0 Hr. induction Hr; [apply inv_start; assumption | eapply inv_step; eassumption].
   Qed.
@@ -209,12 +210,12 @@ Section P.
     - destruct n; reflexivity.
   Qed.
 
-  Lemma ed_reach : forall s0 s, reach disk s0 s -> ed_ok s0 s.
+  Lemma ed_reach : forall s0 s, reach disk true s0 s -> ed_ok s0 s.
   Proof.
     intros s0 s Hr. induction Hr; [intros u; reflexivity | eapply ed_step; eassumption].
   Qed.
 
-  Theorem reload_converges : forall s0 s, start disk s0 -> reach disk s0 s -> quiescent s ->
+  Theorem reload_converges : forall s0 s, start disk s0 -> reach disk true s0 s -> quiescent s ->
     forall u,
       wopen s u = editor (wopen s0) (queue s0) u /\
       an s u = match wopen s u with Some t => Some t | None => disk u end.
@@ -301,8 +302,8 @@ End P.
 (** * non-vacuity: a reload interleaved with an open and a close of an on-disk file *)
 Section Example.
   Definition ex_disk (u : uri) : option text := match u with 0 => Some 7 | _ => None end.
-  Notation reachE := (reach ex_disk).
-  Notation stepE := (step ex_disk).
+  Notation reachE := (reach ex_disk true).
+  Notation stepE := (step ex_disk true).
 
   Lemma reach_front : forall (s0 s1 s : st), stepE s0 s1 -> reachE s1 s -> reachE s0 s.
   Proof.
@@ -322,14 +323,14 @@ Section Example.
     - repeat split; reflexivity.
     - eexists. split.
       + eapply reach_front; [eapply r_start; reflexivity|]. cbn [wopen ver an queue mid pend rs].
-        eapply reach_front; [eapply (s_sect1 _ _ (NSet 0 1)); reflexivity|]. cbn [sect1 wopen ver an queue mid pend rs tl].
+        eapply reach_front; [eapply (s_sect1 _ _ _ (NSet 0 1)); reflexivity|]. cbn [sect1 wopen ver an queue mid pend rs tl].
         eapply reach_front; [eapply r_clear; reflexivity|]. cbn [set_rs wopen ver an queue mid pend rs].
         eapply reach_front; [eapply r_init; reflexivity|]. cbn [set_an_rs wopen ver an queue mid pend rs].
-        eapply reach_front; [eapply (s_sect2 _ _ (NSet 0 1)); reflexivity|]. cbn [sect2 wopen ver an queue mid pend rs].
+        eapply reach_front; [eapply (s_sect2 _ _ _ (NSet 0 1)); reflexivity|]. cbn [sect2 wopen ver an queue mid pend rs].
         eapply reach_front; [eapply r_next; [reflexivity | cbn; discriminate]|]. cbn [set_rs wopen ver an queue mid pend rs].
-        eapply reach_front; [eapply (s_sect1 _ _ (NClose 0)); reflexivity|]. cbn [sect1 wopen ver an queue mid pend rs tl].
+        eapply reach_front; [eapply (s_sect1 _ _ _ (NClose 0)); reflexivity|]. cbn [sect1 wopen ver an queue mid pend rs tl].
         eapply reach_front; [eapply r_apply; reflexivity|]. cbn [set_an_rs wopen ver an queue mid pend rs].
-        eapply reach_front; [eapply (s_sect2 _ _ (NClose 0)); reflexivity|]. cbn [sect2 wopen ver an queue mid pend rs].
+        eapply reach_front; [eapply (s_sect2 _ _ _ (NClose 0)); reflexivity|]. cbn [sect2 wopen ver an queue mid pend rs].
         eapply reach_front; [eapply r_next; [reflexivity | cbn; discriminate]|]. cbn [set_rs wopen ver an queue mid pend rs].
         eapply reach_front; [eapply r_apply; reflexivity|]. cbn [set_an_rs wopen ver an queue mid pend rs].
         eapply reach_front; [eapply r_same; reflexivity|]. cbn [set_rs wopen ver an queue mid pend rs].
@@ -337,3 +338,39 @@ Section Example.
       + vm_compute. repeat split; reflexivity.
   Qed.
 End Example.
+
+(** * if [sync_open_file] bumped the version only for uris that were not open, an edit of an open file that
+      lands between the reload's snapshot and init_analysis would be lost *)
+Section Refute.
+  Definition no_disk (u : uri) : option text := None.
+  Notation reachF := (reach no_disk false).
+  Notation stepF := (step no_disk false).
+
+  Lemma reach_frontF : forall (s0 s1 s : st), stepF s0 s1 -> reachF s1 s -> reachF s0 s.
+  Proof.
+    intros s0 s1 s H Hr. induction Hr.
+    - eapply reachS; [apply reach0 | assumption].
+    - eapply reachS; eassumption.
+  Qed.
+
+  Definition stale_start : st :=
+    mkSt (fun u => match u with 0 => Some 1 | _ => None end) 0
+         (fun u => match u with 0 => Some 1 | _ => None end) [NSet 0 2] None true RIdle.
+
+  Lemma bump_only_new_refuted :
+    start no_disk stale_start /\
+    exists s, reachF stale_start s /\ quiescent s /\ wopen s 0 = Some 2 /\ an s 0 = Some 1.
+  Proof.
+    split.
+    - repeat split; try reflexivity. intros [|u]; reflexivity.
+    - eexists. split.
+      + eapply reach_frontF; [eapply r_start; reflexivity|]. cbn [wopen ver an queue mid pend rs].
+        eapply reach_frontF; [eapply (s_sect1 _ _ _ (NSet 0 2)); reflexivity|]. cbn [sect1 wopen ver an queue mid pend rs tl orb].
+        eapply reach_frontF; [eapply (s_sect2 _ _ _ (NSet 0 2)); reflexivity|]. cbn [sect2 wopen ver an queue mid pend rs].
+        eapply reach_frontF; [eapply r_clear; reflexivity|]. cbn [set_rs wopen ver an queue mid pend rs].
+        eapply reach_frontF; [eapply r_init; reflexivity|]. cbn [set_an_rs wopen ver an queue mid pend rs].
+        eapply reach_frontF; [eapply r_same; [reflexivity | vm_compute; reflexivity]|]. cbn [set_rs wopen ver an queue mid pend rs].
+        apply reach0.
+      + vm_compute. repeat split; reflexivity.
+  Qed.
+End Refute.
